@@ -256,3 +256,17 @@ func vpGenFilterSmall(name string) *ReqFilter {
 	}
 	return f
 }
+
+// vpIsRejection: a NOTICE, or a rejecting OK / a CLOSED (the statement allows all three;
+// which event or subscription they name is the sender's knowledge).
+func vpIsRejection(m ServerMsg) bool {
+	switch x := m.(type) {
+	case *ServerNoticeMsg:
+		return true
+	case *ServerOKMsg:
+		return !x.Accepted
+	case *ServerClosedMsg:
+		return true
+	}
+	return false
+}
